@@ -277,9 +277,9 @@ class Sweep:
         return Sweep(
             items,
             dims=dims,
-            exclude=_combined_exclude(self.exclude, other.exclude),
-            constants=_combine_dicts(self.constants, other.constants),  # type: ignore[arg-type]
-            derivers=_combine_dicts(self.derivers, other.derivers),  # type: ignore[arg-type]
+            exclude=_combined_exclude(self.exclude, *(o.exclude for o in others)),
+            constants=_combine_dicts(self.constants, *(o.constants for o in others)),  # type: ignore[arg-type]
+            derivers=_combine_dicts(self.derivers, *(o.derivers for o in others)),  # type: ignore[arg-type]
         )
 
     def add_derivers(self, **derivers: Callable[[dict[str, Any]], Any]) -> Sweep:
